@@ -332,7 +332,7 @@ def check_C20(tier, seed):
                 "longer histories over more keys/values; after every operation every lookup (all partial bindings) is "
                 "probed with check and retrieve; non-trivial = a history in which some retrieval returns >=1 entry and "
                 "some lookup matches a partial (wildcard) entry")
-    run.assumptions = ["coverage checks are probed only for lookups that bind >=1 key and inserts bind >=1 key (C20's domain)",
+    run.assumptions = ["coverage checks are probed only for lookups that bind >=1 key (C20's domain); inserts may bind no key",
                        "values and outputs are plain hashable Python values",
                        "the reference store CacheIndexOps!RetrieveRef/CheckRef (TLA+) is the oracle"]
     # (1) design level: the index contract is satisfiable by the nested-dict mechanism when the descent follows every
@@ -357,7 +357,7 @@ def check_C20(tier, seed):
                 ops.append({"op": "clear", "b": [0] * nk2, "o": 0})
             else:
                 b = [rng.choice([0] + list(range(1, nv2 + 1))) if rng.random() < 0.8 else 0 for _ in range(nk2)]
-                if not any(b):
+                if not any(b) and rng.random() < 0.7:       # the empty binding is inserted now and then
                     b[rng.randrange(nk2)] = 1
                 ops.append({"op": "insert", "b": b, "o": k + 1})
         allk = [list(l) for l in itertools.product(range(nv2 + 1), repeat=nk2)]
